@@ -13,14 +13,16 @@ def _decls(tier, seed, fams, k8n=(2, 12)):
         out += C.k2()
     if "K3" in fams:
         out += C.k3()
-    if "K4" in fams:
-        out += C.k4()
+    if "K4" in fams or "K4I" in fams:
+        out += [d for d in C.k4() if d.family in fams]
     if "K5" in fams:
         out += C.k5(th)
     if "K6" in fams:
         out += C.k6()
     if "K9" in fams:
         out += C.k9()
+    if "K10" in fams:
+        out += C.k10()
     if "KS" in fams:
         out += C.ks()
     if "K8" in fams:
@@ -46,7 +48,7 @@ def _mods(decls, bundle_names, prop, fill, per_decl=None):
 # ----------------------------------------------------------------------------------
 
 def plan_C01(tier, seed):
-    decls = _decls(tier, seed, ["K1", "K2", "K3", "K5", "K6", "K8", "K9"])
+    decls = _decls(tier, seed, ["K1", "K2", "K3", "K5", "K6", "K8", "K9", "K10"])
 
     def fill(m):
         m.add(E.h_try_from(m))
@@ -62,7 +64,7 @@ def plan_C01(tier, seed):
 
 
 def plan_C05(tier, seed):
-    decls = _decls(tier, seed, ["K1", "K2", "K3", "K5", "K6", "K8", "K9"])
+    decls = _decls(tier, seed, ["K1", "K2", "K3", "K5", "K6", "K8", "K9", "K10"])
 
     def fill(m):
         m.add(E.h_minmax_next(m))
@@ -75,7 +77,7 @@ def plan_C05(tier, seed):
 
 
 def plan_C03(tier, seed):
-    decls = _decls(tier, seed, ["K1", "K2", "K3", "K4", "K5", "K8", "K9", "KS"])
+    decls = _decls(tier, seed, ["K1", "K2", "K3", "K4", "K5", "K8", "K9", "K4I", "KS"])
     th = tier == "thorough"
 
     def fill(m):
@@ -202,7 +204,7 @@ def plan_C07(tier, seed):
 
 def plan_C08(tier, seed):
     th = tier == "thorough"
-    decls = _decls(tier, seed, ["K1", "K4", "K5", "K8", "K9", "KS"])
+    decls = _decls(tier, seed, ["K1", "K4", "K5", "K8", "K9", "K4I", "KS"])
     decls += [d for d in C.k2() if th or d.name in ("k2_i8", "k2_u16", "k2_i64", "k2_i8_mid")]
     decls += [d for d in C.k3() if d.name in ("k3_i8_lo", "k3_u64_hi", "k3_i16_zero")]
 
@@ -217,7 +219,7 @@ def plan_C08(tier, seed):
 
 def plan_C02(tier, seed):
     th = tier == "thorough"
-    decls = _decls(tier, seed, ["K1", "K2", "K3", "K8", "K9"])
+    decls = _decls(tier, seed, ["K1", "K2", "K3", "K8", "K9", "K10"])
     decls += [d for d in C.k5(th) if d.name in ("k5_i16_300", "k5_i8_138") or th]
     decls += [d for d in C.k4() if d.name in ("k4_dup", "k4_dup_h", "k4_esc_h")]
 
@@ -240,6 +242,8 @@ def plan_C02(tier, seed):
             return [["R", "T"], ["M", "A"], ["T", "I"]][i]
         if d.family == "K5":
             return ["M", "T"]
+        if d.family == "K10":
+            return ["T"]
         return ["M", "T", "A"] if d.repr in ("i8", "u64", "isize", "i128") else ["M", "T"]
     return _mods(decls, None, "C02", fill, per)
 
